@@ -131,15 +131,23 @@ def equal_where_no_raise(got, want, got_it: Interp, want_it: Interp, max_atoms=1
         return None
 
     def resolve(t, v):
-        def rw(s2):
-            if s2[0] == "ite":
-                return s2[2] if _bool_eval(s2[1], dict(atoms), v) else s2[3]
-            return None
-        prev = None
-        while prev != t:
-            prev = t
-            t = subst(t, rw)
-        return t
+        # top-down: a conditional is decided on its condition AS WRITTEN (the atoms were collected from the unresolved
+        # terms), then the chosen branch is resolved
+        if not isinstance(t, tuple):
+            return t
+        if t and t[0] == "ite":
+            if key(t[1]) not in atoms and not _known(t[1]):
+                raise _Unresolved()
+            return resolve(t[2] if _bool_eval(t[1], dict(atoms), v) else t[3], v)
+        return tuple(resolve(x, v) for x in t)
+
+    def _known(c):
+        probe = dict(atoms)
+        _bool_eval(c, probe, 0)
+        return len(probe) == len(atoms)
+
+    class _Unresolved(Exception):
+        pass
     n_atoms = len(atoms)
     for v in range(1 << n_atoms):
         ra, rb = _bool_eval(a, dict(atoms), v), _bool_eval(b, dict(atoms), v)
@@ -150,7 +158,7 @@ def equal_where_no_raise(got, want, got_it: Interp, want_it: Interp, max_atoms=1
         try:
             if not equal(resolve(got, v), resolve(want, v)):
                 return False
-        except Inconclusive:
+        except (Inconclusive, _Unresolved):
             return None
     return True
 
@@ -568,6 +576,19 @@ def rule_ctor(prog, rep):
         compare_guards(rep, "C13.ctor", site, q, gi, wi, "validator")
     for (q, mname), (argn, src) in METHOD_GUARD_REFS.items():
         c = prog.cls(q)
+        if (q, mname) == ("flowjax.bijections.concatenate.Concatenate", "_argcheck_shapes"):
+            # a function of shapes only (slicing, equality, len): decided on a grid of shape lists of mixed rank
+            # against the documented check evaluated the same way (shapegrid)
+            res_ = shapegrid.decide_concatenate_argcheck(prog, src)
+            if res_ is not None:
+                site_ = method_site(prog, c, mname)
+                kk_ = f"{c.name}.{mname}:raises-if(shapes differ off the axis)"
+                if res_[0] == "holds":
+                    rep.holds("C13.ctor", site_, kk_, f"raises exactly when the documented check raises on {res_[1]} (shape list, "
+                                                      f"axis) cases of mixed rank")
+                else:
+                    rep.violated("C13.ctor", site_, kk_, res_[1])
+                continue
         args = [("sym", a) for a in argn]
         gi, wi = Interp(prog), Interp(prog)
         gi.eval_method(c, mname, args)
